@@ -487,7 +487,10 @@ def parse_statement_list(
 ) -> List[Statement]:
     parsed_statements = []
     for obj in statements:
-        assert isinstance(obj, dict), obj
+        if not isinstance(obj, dict):
+            raise exc.DataGenSyntaxError(
+                f"Statements should be dictionaries, not `{obj}`", **context.line_num()
+            )
         if obj.get("object"):
             object_template = parse_object_template(obj, context)
             parsed_statements.append(object_template)
